@@ -897,7 +897,7 @@ def probe_short_pulse(wd):
                            '0x13 [667, 735], 0x14 data; fast-load=0'}, 'tape': 'sp.tzx'}
 
 
-def probe_short_gap(wd):
+def probe_zero_gap_pause(wd):
     """No gap between the blocks of a bin2tap tape (TZX pause 0) and a real (not fast) load: with pause=0 the tape has moved on
     when BASIC asks for the next block, with pause=1 it waits - the announce sets the clock to different edges."""
     _skool()
@@ -924,6 +924,6 @@ def probe_short_gap(wd):
     for cfg in ({'fast-load': 0}, {'fast-load': 0, 'pause': 0}, {'fast-load': 0, 'pause': 0, 'accelerator': 'none'}):
         s, err, _ = run_tap2sna(tzx, os.path.join(wd, 'sg.z80'), org, cfg)
         runs.append(project(s, err, cfg, loads))
-    return {'key': 'probe/short-gap', 'start': org, 'expect': [data], 'runs': runs, 'dropped': [], 'names': 'rom',
+    return {'key': 'probe/zero-gap-pause', 'start': org, 'expect': [data], 'runs': runs, 'dropped': [], 'names': 'rom',
             'gen': {'how': 'bin2tap -o 40000 of 50 bytes; every TAP block as TZX 0x10 with pause 0 ms; fast-load=0; pause=1 vs pause=0'},
             'tape': 'sg.tzx'}
